@@ -203,6 +203,19 @@ class SimNode:
             self.other_classes[where].append(op)
         return h
 
+    def add_stale_own_op(self, pkh, where='outdated', n=1):
+        """An operation of `pkh` that will never take a counter: already superseded (`outdated`), refused or delayed.  It is
+        listed by pending_operations under that class but is not pending."""
+        acct = self.accounts[pkh]
+        contents = []
+        for i in range(n):
+            ctr = max(1, acct['counter'] - i)
+            j = {'kind': 'transaction', 'source': pkh, 'fee': '400', 'counter': str(ctr), 'gas_limit': '1500', 'storage_limit': '0', 'amount': '1', 'destination': pkh}
+            contents.append({'kind': 'transaction', 'source': pkh, 'counter': ctr, 'fee': 400, 'gas_limit': 1500, 'json': j})
+        h = oc.op_hash(b'stale%d/%s/%d' % (self.sim.seq, pkh.encode(), len(self.known_ops)))
+        self.other_classes[where].append({'hash': h, 'branch': self.head['hash'], 'contents': contents, 'raw': b'', 'signature_b58': 'sigStale', 'own': False})
+        return h
+
     def _pending_json(self):
         def entry(op, with_error=False):
             o = {'hash': op['hash'], 'branch': op['branch'], 'contents': [c['json'] for c in op['contents']], 'signature': op['signature_b58']}
